@@ -1,50 +1,68 @@
 """C21: names resolve to the innermost visible declaration; imports are exact.
 spec/props/C21.tla enumerates layouts (states) and evaluates spec/front/AbraResolve.tla on them; this
-driver only runs TLC (several slices of the same enumeration in parallel), runs the programs, and compares
-JSON: printed identities, the set of unresolved-identifier diagnostics (file, byte range) and the set of
-clash messages."""
+driver only runs TLC, runs the programs, and compares
+JSON: printed identities, the set of unresolved-identifier diagnostics (file, line, column, length) and the set
+of clash messages."""
 import collections
-import concurrent.futures
 import glob
 import json
 import os
+import re
 import vlib
 
 MODULE = os.path.join(vlib.SPEC, "props", "C21.tla")
-NSLICES = 8
+NSLICES = 16        # initial states of the enumeration (TLC's two workers share them)
 
 
 def enumerate_family(prop, fam, tier, seed):
-    """all slices of one family; every state of the TLC run is one layout"""
+    """one TLC run per family; every non-initial state of the run is one layout"""
     wd = os.path.join(vlib.WORK, prop)
+    outdir = os.path.join(wd, "enum_%s" % fam)
+    os.makedirs(outdir, exist_ok=True)
+    env = {"C21_FAM": fam, "C21_TIER": tier, "C21_SEED": seed, "C21_NSLICES": NSLICES, "OUTDIR": outdir}
+    res = vlib.tlc(MODULE, env=env, workers=2, xmx="3g", timeout=1500, metadir=os.path.join(wd, "meta_%s" % fam))
+    vlib.tlc_ok(res, "%s fam=%s" % (MODULE, fam))
+    cases = []
+    for f in sorted(glob.glob(os.path.join(outdir, "*.json"))):
+        with open(f) as fh:
+            cases += json.load(fh)
+    return cases, res.distinct - NSLICES, res.wall
 
-    def one(k):
-        outdir = os.path.join(wd, "enum_%s_%d" % (fam, k))
-        os.makedirs(outdir, exist_ok=True)
-        env = {"C21_FAM": fam, "C21_TIER": tier, "C21_SEED": seed, "C21_SLICE": k, "C21_NSLICES": NSLICES,
-               "OUTDIR": outdir}
-        res = vlib.tlc(MODULE, env=env, timeout=1500, metadir=os.path.join(wd, "meta_%s_%d" % (fam, k)))
-        vlib.tlc_ok(res, "%s fam=%s slice=%d" % (MODULE, fam, k))
-        cases = []
-        for f in sorted(glob.glob(os.path.join(outdir, "*.json"))):
-            with open(f) as fh:
-                cases += json.load(fh)
-        return cases, res
 
-    with concurrent.futures.ThreadPoolExecutor(max_workers=NSLICES) as ex:
-        parts = list(ex.map(one, range(NSLICES)))
-    cases = [c for p, _ in parts for c in p]
-    states = sum(r.distinct for _, r in parts)
-    wall = max(r.wall for _, r in parts)
-    return cases, states, wall
+ERR = re.compile(r"^error: (.*)$")
+LOC = re.compile(r"┌─ (.*):(\d+):(\d+)$")
+UND = re.compile(r"^\s*│\s*(-+)")
+
+
+def parse_check_text(text):
+    """the checker's rendered diagnostics -> [{msg, file, line, col, len}] (first label of each)"""
+    items, cur = [], None
+    for line in text.split("\n"):
+        m = ERR.match(line)
+        if m:
+            cur = {"msg": m.group(1), "file": None, "line": 0, "col": 0, "len": 0}
+            items.append(cur)
+            continue
+        if cur is None:
+            continue
+        if cur["file"] is None:
+            m = LOC.search(line)
+            if m:
+                cur["file"], cur["line"], cur["col"] = m.group(1), int(m.group(2)), int(m.group(3))
+        elif cur["len"] == 0:
+            m = UND.match(line)
+            if m:
+                cur["len"] = len(m.group(1))
+    return items
 
 
 def diag_sets(case, obs):
     """project the observed diagnostics onto the two kinds the specification speaks about"""
-    diags = obs.get("diags")
-    if not isinstance(diags, list):
+    text = obs.get("check_text")
+    if not isinstance(text, str):
         return None, None, 0
-    unres = {(d["file"], d["start"], d["end"]) for d in diags if d["msg"] == case["msg_unresolved"]}
+    diags = parse_check_text(text)
+    unres = {(d["file"], d["line"], d["col"], d["len"]) for d in diags if d["msg"] == case["msg_unresolved"]}
     clash = {d["msg"] for d in diags if d["msg"].endswith(case["clash_suffix"])}
     other = sum(1 for d in diags if d["msg"] != case["msg_unresolved"] and not d["msg"].endswith(case["clash_suffix"]))
     return unres, clash, other
@@ -54,18 +72,39 @@ def compare_case(case, obs):
     mism = vlib.compare(case["expect"], obs)
     xd = case["expect_diags"]
     other = 0
-    if case["mode"] == "lsp" and not mism:
+    if case["mode"] == "check" and not mism:
         unres, clash, other = diag_sets(case, obs)
         if unres is None:
-            return [{"field": "diags", "want": "list of diagnostics", "got": obs.get("diags")}], 0
-        ignore = {(p["file"], p["start"], p["end"]) for p in case["ignore"]}
-        want_unres = {(p["file"], p["start"], p["end"]) for p in xd["unresolved"]}
+            return [{"field": "check_text", "want": "rendered diagnostics", "got": obs.get("check_text")}], 0
+        ignore = {(p["file"], p["line"], p["col"], p["len"]) for p in case["ignore"]}
+        want_unres = {(p["file"], p["line"], p["col"], p["len"]) for p in xd["unresolved"]}
         got_unres = unres - ignore
         if want_unres != got_unres:
             mism.append({"field": "unresolved", "want": sorted(want_unres), "got": sorted(got_unres)})
         if set(xd["clash"]) != clash:
             mism.append({"field": "clash", "want": sorted(xd["clash"]), "got": sorted(clash)})
     return mism, other
+
+
+def run_with_retry(cases, wd, chunk=800):
+    """run in chunks (fresh workers: the harness never drops the analysis result of a case that asks for structured
+    diagnostics, so a worker's address space grows; not used here any more, but cheap).  A watchdog timeout or a
+    worker abort on these small programs is almost always machine load / the address-space limit: run those cases
+    again, alone and with a long limit, before the observation is compared (a real crash or non-termination
+    reproduces and still ends up as a finding)"""
+    obs, wall = [], 0.0
+    for k in range(0, len(cases), chunk):
+        o, w = vlib.run_harness(cases[k:k + chunk], wd, name="cases_%d" % (k // chunk), jobs=4, timeout=60)
+        obs += o
+        wall += w
+    late = [i for i, o in enumerate(obs)
+            if {"timeout", "abort"} & {o.get("compile"), o.get("status"), o.get("check")}]
+    if late:
+        again, w2 = vlib.run_harness([cases[i] for i in late], wd, name="retry", jobs=1, timeout=600)
+        for i, o in zip(late, again):
+            obs[i] = o
+        wall += w2
+    return obs, wall, len(late)
 
 
 def run(prop, tier, seed):
@@ -81,7 +120,7 @@ def run(prop, tier, seed):
     for c in cases:
         # transport encoding: the specification emits a file as its sequence of lines
         c["files"] = {n: "\n".join(ls) + "\n" for n, ls in c["files"].items()}
-    obs, hwall = vlib.run_harness(cases, wd, jobs=12)
+    obs, hwall, retried = run_with_retry(cases, wd)
     other_diags = 0
     for c, o in zip(cases, obs):
         mism, other = compare_case(c, o)
@@ -113,7 +152,7 @@ def run(prop, tier, seed):
                 "function parameter; distinct = distinct program texts; every program contains >= 20 identifier uses",
         "exhaustive": True,
         "layouts": {k: v for k, v in states.items()}, "tlc_states": sum(states.values()), "tlc_wall_s": tlc_wall,
-        "harness_wall_s": round(hwall, 1),
+        "harness_wall_s": round(hwall, 1), "cases_retried_after_timeout_or_abort": retried,
         "variants": dict(variants),
         "use_verdicts": dict(verdicts),
         "programs_expect_ok": sum(1 for c in cases if c["mode"] == "run"),
